@@ -186,3 +186,6 @@ func PubKeyBytes(i int) []byte {
 // and records c as the presence condition of every cell written inside.
 func Guard(c bool) bool { return c }
 func EndGuard()         {}
+
+// Byte is an arbitrary byte input.
+func Byte(name string) byte { return byte(big0(name).Uint64()) }
